@@ -286,18 +286,22 @@ fn c27_probe(kind: &str, seed: u64) -> i32 {
             }
         } else {
             println!("probe concurrent {} ...", t.name);
+            // grammars with `!` get a longer stress: several threads in error recovery at once
+            let rounds = if shared.specs[t.spec].has_recovery { 20_000 } else { 200 };
             let mut hs = Vec::new();
             for th in 0..4usize {
                 let sh = shared.clone();
                 hs.push(std::thread::spawn(move || {
                     let t = &sh.targets[ti];
-                    for round in 0..6 {
+                    for round in 0..rounds {
                         let c = &t.cases[(th * 5 + round) % t.cases.len()];
                         if c.reenter_at.is_some() {
                             continue;
                         }
                         let mut ctx = Ctx::new(Plan::default());
-                        ctx.yield_hook = Some(Box::new(std::thread::yield_now));
+                        if round % 8 == 0 {
+                            ctx.yield_hook = Some(Box::new(std::thread::yield_now));
+                        }
                         let out = c27::parse_on(t, &sh.specs, t.shared.as_ref(), &ctx, &c.toks, c.shape);
                         if out != c.out || *ctx.log.borrow() != c.log {
                             return false;
